@@ -2,6 +2,7 @@ import Mp4ff.Model.Boxes
 import Mp4ff.Expect.Facts
 import Mp4ff.Lemmas.LayoutThms
 import Mp4ff.Props.C01b
+import Mp4ff.Expect.Transcribed
 /-!
 # C01 — decode then encode is lossless outside reserved fields, and a fixed point
 Property theorems (proofs in `Mp4ff/Lemmas/LayoutThms.lean`).  The generic theorems hold for EVERY layout term
@@ -41,5 +42,10 @@ theorem roundTrip_spec (bs : Bytes) (hb : IsBytes bs) (size : Nat) (enc : Bytes)
     (∀ i, 8 ≤ i → i < enc.length → i ∉ dc → enc[i]? = bs[i]?) ∧
     (enc.length = bs.length → ∃ dc', roundTrip enc = .ok size enc dc') :=
   Boxes.roundTrip_spec bs hb size enc dc h8 hsz h
+
+/-- the Go functions the models of this property transcribe (committed table `spec/transcribed.json`, checked against
+    the current source by the extractor on every run) all still exist -/
+theorem model_sources_exist :
+    (["Aac.lean", "Bits.lean", "Boxes.lean", "Tree.lean"] : List String).all Mp4ff.Expect.presentFor = true := by decide +kernel
 
 end Mp4ff.Boxes.C01
